@@ -179,7 +179,7 @@ pub fn run(ctx: &Ctx) {
     ctx.note("enumerated_cases", json!(cases.len()));
     let idx: Vec<usize> = (0..cases.len()).collect();
     ctx.enumerate("c09.dags", &idx, |i| json!({"index": i}), |i, stats| check_dag(&cases[*i], runs, stats));
-    let n_random = ctx.tier.pick(300, 4000);
+    let n_random = ctx.tier.pick(300, 20000);
     ctx.search("c09.random", n_random, 80, |tape, stats| {
         let g = random_dag(tape);
         check_dag(&g, runs, stats)
